@@ -1,3 +1,3 @@
-import CashewsVerif.Driver.Tx
+import CashewsVerif.Driver.TxRead
 /- Driver for C04: the same executable logic as driver_c03 (one shared model). -/
-def main : IO Unit := CashewsVerif.TxDriver.run
+def main : IO Unit := CashewsVerif.TxDriver.runD
